@@ -36,7 +36,12 @@ def main():
         wt = copy + '/wt'
         r = subprocess.run(['git', '-C', wt, 'apply', os.path.abspath(os.path.join(src, 'patch.diff'))], capture_output=True, text=True)
         if r.returncode: res['status'] = 'patch does not apply: ' + r.stderr[:300]; print(json.dumps(res)); return
-        ok, why = mr.baseline_ok(wt)
+        skip = '--skip-baseline' in a          # re-evaluation of a change that has been confirmed before (seed_eval_all.sh): build, tests and demonstration are not repeated
+        old_meta = {}
+        if skip:
+            try: old_meta = json.load(open(os.path.join(src, 'meta.json')))
+            except Exception: skip = False
+        ok, why = (True, old_meta.get('baseline', '')) if skip else mr.baseline_ok(wt)
         res['baseline'] = why
         if not ok: res['status'] = 'rejected: ' + why; print(json.dumps(res)); return
         demo = os.path.join(src, 'demo.c')
@@ -49,9 +54,12 @@ def main():
                 return d.returncode, (d.stdout + d.stderr)[-300:]
             except subprocess.TimeoutExpired:
                 return 124, 'timeout'
-        rc_bad, out_bad = run_demo(os.path.join(wt, 'src'))
-        rc_ok, out_ok = run_demo('/repo/src')
-        res['demo'] = {'with_change_rc': rc_bad, 'without_change_rc': rc_ok, 'with_change_tail': out_bad}
+        if skip and old_meta.get('demo'):
+            res['demo'] = old_meta['demo']; rc_bad, rc_ok = res['demo'].get('with_change_rc'), res['demo'].get('without_change_rc')
+        else:
+            rc_bad, out_bad = run_demo(os.path.join(wt, 'src'))
+            rc_ok, out_ok = run_demo('/repo/src')
+            res['demo'] = {'with_change_rc': rc_bad, 'without_change_rc': rc_ok, 'with_change_tail': out_bad}
         if rc_ok != 0 or rc_bad in (0, None):
             res['status'] = 'rejected: demonstration does not discriminate (with change rc=%s, without rc=%s)' % (rc_bad, rc_ok); print(json.dumps(res)); return
         import run as runpy
